@@ -414,6 +414,8 @@ def _conversions_only(eq, mism):
 def check_equiv(rep, rule, construct, what, code, spec, where="", eq=None, assume=None, cond_alias=None, key=None, int_subjects=None, alt=None):
     eq = eq or Equiv()
     run = getattr(rep, "run", None)
+    if run is not None and construct in run.P.functions:
+        rep.analysed(construct)          # (the dependency closure starts from the functions the rules looked at)
     if eq.run is None and run is not None:
         fn = run.P.functions.get(construct)
         eq.bind(run, cls=fn.cls if fn else None)
@@ -427,6 +429,12 @@ def check_equiv(rep, rule, construct, what, code, spec, where="", eq=None, assum
         cs_ = run.A.summary(construct)
         local_ = lambda o: head(o) in ("dict", "list", "set", "alloc") or (head(o) == "call" and strip(o[1]) in (("glob", "builtins.dict"), ("glob", "builtins.list"), ("glob", "builtins.set"), ("glob", "collections.defaultdict")))
         stored = {strip_all(e_["obj"]) for e_ in cs_.events_of("setitem") if local_(strip_all(e_["obj"]))}
+        aa = cs_.events_of("alias_aug")
+        if aa:
+            e_ = aa[0]
+            rep.require(False, f"{construct}: the augmented assignment to '{e_['name']}' at line {e_.line} updates an object that {', '.join(e_['others'])} also refer(s) to; whether the update is in place "
+                               f"(arrays, lists, tables) or a rebinding (numbers, strings) depends on the run-time type; cannot decide [{rule}]")
+            return None
         if stored and any(x in stored for x in walk(strip_all(code))):
             rep.require(False, f"{construct}: the compared value contains a local container that is filled by item assignments ({show(next(iter(stored)), 30)}[...] = ...), which value terms do not carry; cannot decide [{rule}]")
             return None
